@@ -157,6 +157,39 @@ func fixedScenarios() []fixed {
 		sc.Writes = nil
 		sc.End = "close-stalled"
 	})
+	mk("close-port-and-tnc-while-reader-stalled", func(sc *scenario) {
+		sc.Bursts = []burst{{Frames: 96, MinSz: 10, MaxSz: 100, StallMs: 150}}
+		sc.Writes = nil
+		sc.End = "tnc-close-stalled"
+	})
+	mk("close-port-and-tnc-while-reader-stalled-tcp", func(sc *scenario) {
+		sc.Link, sc.Seg = "tcp", "cut0"
+		sc.Bursts = []burst{{Frames: 200, MinSz: 10, MaxSz: 100, StallMs: 150}}
+		sc.Writes = nil
+		sc.End = "tnc-close-stalled"
+	})
+	mk("link-drop-while-reader-stalled", func(sc *scenario) {
+		sc.Bursts = []burst{{Frames: 5, MinSz: 1, MaxSz: 50}, {Frames: 128, MinSz: 1, MaxSz: 120, StallMs: 80}}
+		sc.End, sc.DropInStall = "link-drop", true
+		sc.Writes = nil // the application's writer is not racing the end of the link
+	})
+	mk("link-drop-while-reader-stalled-tcp", func(sc *scenario) {
+		sc.Link, sc.Seg = "tcp", "cut10"
+		sc.Bursts = []burst{{Frames: 128, MinSz: 1, MaxSz: 120, StallMs: 80}}
+		sc.End, sc.DropInStall = "link-drop", true
+		sc.Writes = nil // the application's writer is not racing the end of the link
+	})
+	mk("two-connections", func(sc *scenario) {
+		sc.Dual, sc.DualPct = true, 50
+		sc.Bursts = []burst{{Frames: 40, MinSz: 1, MaxSz: 200, ForeignPct: 30}, {Frames: 100, MinSz: 1, MaxSz: 100, StallMs: 40}}
+		sc.NoisePct = 50
+	})
+	mk("two-connections-port-2-tcp-app-close", func(sc *scenario) {
+		sc.Link, sc.Seg, sc.Port = "tcp", "cut10", 2
+		sc.Dual, sc.DualPct = true, 100
+		sc.Bursts = []burst{{Frames: 80, MinSz: 1, MaxSz: 200}}
+		sc.End = "app-close"
+	})
 	mk("link-drop-pipe", func(sc *scenario) { sc.End = "link-drop"; sc.Bursts = []burst{{Frames: 30, MinSz: 1, MaxSz: 500}} })
 	mk("link-drop-tcp", func(sc *scenario) {
 		sc.Link, sc.Seg, sc.End = "tcp", "cut10", "link-drop"
@@ -242,14 +275,25 @@ func randomStream(seed int64, i int) scenario {
 			sc.Writes = append(sc.Writes, 1001+r.Intn(7192))
 		}
 	}
+	if r.Intn(100) < 15 {
+		sc.Dual, sc.DualPct = true, vrt.Pick(r, []int{10, 50, 100})
+	}
 	switch x := r.Intn(100); {
-	case x < 40:
+	case x < 38:
 		sc.End = "remote-disc"
-	case x < 70:
+	case x < 66:
 		sc.End = "app-close"
-	case x < 80:
+	case x < 78:
 		sc.End = "link-drop"
-	case x < 90:
+		if last := &sc.Bursts[len(sc.Bursts)-1]; last.StallMs > 0 && r.Intn(2) == 0 {
+			sc.DropInStall = true
+			sc.Writes = nil
+		}
+	case x < 83:
+		sc.End = "tnc-close-stalled"
+		sc.Bursts = []burst{{Frames: 64 + r.Intn(128), MinSz: 1, MaxSz: 120, StallMs: 100 + r.Intn(100)}}
+		sc.Writes = nil
+	case x < 91:
 		sc.End = "close-inflight"
 		sc.Bursts = []burst{{Frames: 200 + r.Intn(300), MinSz: 1, MaxSz: 120, ForeignPct: sc.Bursts[0].ForeignPct}}
 	default:
